@@ -24,6 +24,16 @@ def idxs(names):
     return sf.il([IDX[n] for n in names if n in IDX])
 
 
+def bkg_args(op):
+    """explicit expected mean (instead of the method's own get_mean_func) and Poisson on/off, as the public API offers"""
+    kw = {}
+    if op.get('mean') is not None:
+        kw['mean_n_bkg_list'] = [float(op['mean'])]
+    if op.get('poisson') is False:
+        kw['bkg_kwargs'] = {'poisson': False}
+    return kw
+
+
 class Runner:
     """executes one history on the implementation; records request lines for the model and observations"""
 
@@ -96,14 +106,16 @@ class Runner:
         try:
             if k == 'genFixed':
                 w.set_bkg_method(w.fixed[op['scr']])
-                (_, evl) = w.ana.generate_background_events(rss)
+                (nl, evl) = w.ana.generate_background_events(rss)
+                self.last_count = (int(nl[0]), None)
                 new = evl[0]
                 lines.append('genFixed %s %s' % (op['scr'], pf.cols_tok((f, new[f]) for f in pf.DOCUMENTED[op['scr']])))
             elif k == 'genMC':
                 mcv = w.spec['mc_variant']
                 w.set_bkg_method(w.mc_method)
-                (_, evl) = w.ana.generate_background_events(rss)
+                (nl, evl) = w.ana.generate_background_events(rss, **bkg_args(op))
                 new = evl[0]
+                self.last_count = (int(nl[0]), op.get('mean'))
                 keep = list(w.exp_field_names()) + list(mcv.get('keep', ['mcweight']))
                 cache_uid = sf.ivals(w.mc['uid'][::2] if mcv['presel'] else w.mc['uid'])
                 pos = {u: i for i, u in enumerate(cache_uid)}
@@ -121,7 +133,8 @@ class Runner:
                 if mcv['scr'] is not None:
                     twin = w.DataScrambler(w.scr[mcv['scr']]()).scramble_data(w.RSS(seed=op.get('seed', 1)), w.ds, twin, copy=False)
                 w.set_bkg_method(w.comp_method)
-                (_, evl) = w.ana.generate_background_events(rss)
+                (nl, evl) = w.ana.generate_background_events(rss, **bkg_args(op))
+                self.last_count = (int(nl[0]), op.get('mean'))
                 new = evl[0]
                 sets = pf.cols_tok((f, twin[f]) for f in pf.DOCUMENTED[mcv['scr']]) if mcv['scr'] else '-'
                 rates = pf.cols_tok((nm, fn(w.ds, w.data, twin)) for nm, fn in w.comp_rates.items())
@@ -249,6 +262,10 @@ def gen_history(rng, length, with_dotrial=False, spec=None):
             op['scr'] = rng.choice(scrs)
             nh += 1
         elif k in ('genMC', 'genComp'):
+            if rng.random() < 0.35:
+                op['mean'] = rng.choice([87.3, 1000.0 / 7.0, 3.7, 12.0, 0.4, 41.25, 250.4])
+            if rng.random() < 0.25:
+                op['poisson'] = False
             nh += 1
         elif k == 'genSig':
             op['k'] = rng.choice([1, 2, 3])
@@ -274,7 +291,7 @@ def gen_history(rng, length, with_dotrial=False, spec=None):
 # ------------------------------------------------------------------------------------------
 # property oracles (implementation only)
 
-def frame_check(case):
+def frame_check(case, counts=None):
     """None | (mode, opname, step, text): byte snapshot of data.exp / data.mc after every operation"""
     r = Runner(case['spec'])
     for k, op in enumerate(case['ops']):
@@ -290,6 +307,9 @@ def frame_check(case):
         bad = fieldset_check(r, op, res)
         if bad:
             return ('field-set', op['op'], k, 'step %d (%s): %s' % (k, op['op'], bad))
+        bad = count_check(r, op, res, counts)
+        if bad:
+            return ('event-count', op['op'], k, 'step %d (%s): %s' % (k, op['op'], bad))
         bad = contract_check(r, op, res, scr)
         if bad:
             return ('contract', op['op'], k, 'step %d (%s): %s' % (k, op['op'], bad))
@@ -309,6 +329,41 @@ def frame_check(case):
                 return ('stored-data-changed', op['op'], k,
                         'step %d (%s, result %s): stored %s is altered: changed fields %r, added %r, removed %r%s, length %d' % (
                             k, op['op'], res[0], nm, changed, added, removed, ', field order changed' if order else '', len(a)))
+    return None
+
+
+def count_check(r, op, res, counts=None):
+    """the generated array holds the number of events that is reported: for the scrambled experimental data the number of
+    experimental events; for the MC methods n_bkg scaled by the fraction of the expected background that survives the
+    pre-selection (exactly n_bkg without pre-selection), rounded; with poisson=False n_bkg is the rounded expected mean.
+    `counts` collects (n_bkg, mean_pre_selected, mean, len) for the bit-level comparison with the model."""
+    from fractions import Fraction
+    new = res[2]
+    if res[0] != 'ok' or new is None or op['op'] not in ('genFixed', 'genMC', 'genComp'):
+        return None
+    (n_bkg, explicit) = r.last_count
+    w = r.w
+    if op['op'] == 'genFixed':
+        if not (n_bkg == len(new) == len(w.data.exp)):
+            return 'reported %d background events, the generated array has %d, the experimental data %d' % (n_bkg, len(new), len(w.data.exp))
+        return None
+    presel = w.spec['mc_variant']['presel']
+    m_all = w.mean_func(None, None, w.mc)
+    mean = float(explicit) if explicit is not None else m_all
+    m_sel = w.mean_func(None, None, w.mc[np.arange(len(w.mc))[::2]]) if presel else mean
+    if op.get('poisson') is False and n_bkg != int(np.round(mean, 0)):
+        return 'poisson=False: reported n_bkg=%d for the expected mean %r' % (n_bkg, mean)
+    if mean == 0:
+        return None
+    exact = Fraction(n_bkg) * Fraction(m_sel) / Fraction(mean)
+    lo = exact.numerator // exact.denominator
+    frac = exact - lo
+    ok = {lo} if frac < Fraction(1, 2) - Fraction(1, 10**9) else {lo + 1} if frac > Fraction(1, 2) + Fraction(1, 10**9) else {lo, lo + 1}
+    if counts is not None:
+        counts.append((n_bkg, m_sel, mean, len(new)))
+    if len(new) not in ok:
+        return ('reported n_bkg=%d background events (expected mean %r%s), the generated array holds %d events instead of %s' % (
+            n_bkg, mean, ', pre-selected mean %r' % m_sel if presel else ', no pre-selection', len(new), ' or '.join(str(x) for x in sorted(ok))))
     return None
 
 
@@ -668,7 +723,17 @@ def o_ra_corner(ctx, case):
     return None
 
 
-ORACLES = {'ra_corner': o_ra_corner, 'frame': o_frame, 'scramble': o_scramble, 'corr': o_corr}
+def o_count_model(ctx, case):
+    """the recorded number of events of a generated background vs. the executable model nBkgSelected"""
+    from harness.core import f2b
+    ans = ctx.driver('C07', ['nbkg %d %s %s' % (case['n_bkg'], f2b(case['mean_pre_selected']), f2b(case['mean']))])[0]
+    if int(ans) != case['len']:
+        return 'the implementation drew %d events, the model around(n_bkg*mean_pre_selected/mean) gives %s (n_bkg=%d, mean_pre_selected=%r, mean=%r)' % (
+            case['len'], ans, case['n_bkg'], case['mean_pre_selected'], case['mean'])
+    return None
+
+
+ORACLES = {'count_model': o_count_model, 'ra_corner': o_ra_corner, 'frame': o_frame, 'scramble': o_scramble, 'corr': o_corr}
 
 
 def shrink(case, mode):
@@ -739,6 +804,7 @@ def run(ctx):
         if res:
             ctx.violation('ra_corner', case, res, signature='C07/scramble/azi_to_ra/half-open-range')
     # ---- byte snapshots over histories (incl. Analysis.do_trial)
+    counts = []
     maxlen = ctx.n(4, 6)
     for i in range(ctx.n(250, 6000)):
         spec = pf.gen_spec(rng)
@@ -750,11 +816,22 @@ def run(ctx):
         for op in ops:
             ctx.count('frame-op:' + op['op'])
         ctx.case(key=('frame', case), desc={'oracle': 'frame', 'case': case} if i % 499 == 0 else None)
-        r = frame_check(case)
+        r = frame_check(case, counts)
         if r:
             small = shrink(case, r[0])
             r2 = frame_check(small) or r
             ctx.violation('frame', small, r2[3], signature='C07/%s/%s' % (r2[1], r2[0]))
+    # ---- the number of drawn events: implementation vs. the executable model nBkgSelected (IEEE, same order of operations)
+    if counts:
+        from harness.core import f2b
+        answers = ctx.driver('C07', ['nbkg %d %s %s' % (n, f2b(ms), f2b(m)) for n, ms, m, _ in counts])
+        for (n, ms, m, got), ans in zip(counts, answers):
+            ctx.count('count_model_compared')
+            ctx.count('class:expected mean %s' % ('integer' if float(m).is_integer() else 'non-integer'))
+            if int(ans) != got:
+                ctx.violation('count_model', {'n_bkg': n, 'mean_pre_selected': ms, 'mean': m, 'len': got},
+                              'number of drawn events: implementation %d, model around(n_bkg*mean_pre_selected/mean) = %s for n_bkg=%d, mean_pre_selected=%r, mean=%r' % (got, ans, n, ms, m),
+                              kind='correspondence', relation='exact (IEEE, same order of operations)', signature='C07/corr/event-count', no_failing_input=True)
     # ---- correspondence with the heap model (one driver batch)
     dis = 0
     batch, all_lines = [], []
